@@ -52,6 +52,11 @@ partial def spOfJson (j : Json) : Except String Sp := do
   | "union" => pure (.union (← sub "x") (← sub "y"))
   | "anyOf" => pure (.anyOf (← sub "x") (← sub "y"))
   | "pipe" => pure (.pipe (← sub "x") (← sub "y"))
+  | "scls" => pure (.scls (← declOfJson (← j.getObjVal? "d")) (← (← j.getObjVal? "len").getNat?))
+  | "tup585" => pure (.tup585 (← sub "x") (← sub "y"))
+  | "tupTyping" => pure (.tupTyping (← sub "x") (← sub "y"))
+  | "tupSub" => pure (.tupSub (← sub "x") (← sub "y"))
+  | "tupCall" => pure (.tupCall (← sub "x") (← sub "y"))
   | s => throw s!"spelling {s}"
 
 def dfltOfJson (j : Json) : Except String DefaultSp := do
@@ -160,7 +165,9 @@ def runVariant (O : Oracles) (j : Json) : Except String Json := do
                 ("res", fieldResToJson (elabFieldAt scope O tm future fs)),
                 ("meaning", fieldResToJson (fieldMeaning O fs)),
                 ("annLen", Json.num (Lean.JsonNumber.fromNat (annLenField fs))),
-                ("supported", Json.bool (fieldSupportedAt O tm scope future fs))]
+                ("supported", Json.bool (fieldSupportedAt O tm scope future fs)),
+                ("flat", if flatRegion tm fs && stringOk scope future fs then fieldResToJson (.ok (flatMeaning fs))
+                         else Json.null)]
   pure (Json.mkObj [("cls", classResToJson (elabClass O tm c)),
                     ("fields", Json.arr perField.toArray),
                     ("supported", Json.bool (classSupported O tm c))])
